@@ -2596,3 +2596,81 @@ func c03R16(c *Ctx, r *Report) {
 	}
 	r.Floor(rule, n, 1, "NewNamed call sites outside package types")
 }
+
+// ---- C13.R18: the embedded QBE does not keep a spilled temporary in a register around a loop -----------------
+
+func init() {
+	lateInits = append(lateInits, func() {
+		props["C13"].Quick = append(props["C13"].Quick, c13R18)
+		props["C13"].Explanation += " (R18) in the embedded QBE's spill(), the registers a block hands to a forward successor are collected from liveon() through a helper that compares the loop depths of the two blocks and, for a successor outside the loop, drops temporaries that already have a spill slot: a value that is only used after a loop is not kept in a register at the loop header while the back edge has spilled it (rega() asserts that it cannot happen)."
+	})
+}
+
+func c13R18(c *Ctx, r *Report) {
+	const rule = "C13.R18"
+	r.Describe(rule, "qbe/spill.c spill(): no liveon(v, …) fills the set that is then limited directly; every set obtained from liveon() reaches it through a static helper whose body compares two ->loop fields and tests a .slot against -1; rega.c keeps the assertion this protects")
+	cf := cLoad(c, r, rule, "qbe/spill.c")
+	if cf == nil {
+		return
+	}
+	fn := cf.Funcs["spill"]
+	if !r.Anchor(rule, fn != nil && fn.Body() != nil, "qbe/spill.c:spill") {
+		return
+	}
+	// helpers: compare ->loop of two blocks and test .slot == -1
+	helpers := map[string]bool{}
+	for _, name := range cf.Order {
+		h := cf.Funcs[name]
+		loopCmp, slotTest := false, false
+		h.Walk(func(x *CNode) bool {
+			if x.Kind == "BinaryOperator" && (x.Opcode == "<=" || x.Opcode == "<" || x.Opcode == ">" || x.Opcode == ">=") && strings.Count(x.Src(), "->loop") == 2 {
+				loopCmp = true
+			}
+			if x.Kind == "BinaryOperator" && (x.Opcode == "==" || x.Opcode == "!=") && strings.Contains(x.Src(), ".slot") && strings.Contains(x.Src(), "-1") {
+				slotTest = true
+			}
+			return true
+		})
+		if loopCmp && slotTest && name != "spill" {
+			helpers[name] = true
+		}
+	}
+	// in spill(): the sets filled by liveon, and what happens to them
+	var liveonSets []string
+	limited := map[string]bool{}
+	merged := map[string]bool{}
+	var firstLiveon *CNode
+	fn.Walk(func(x *CNode) bool {
+		if x.Kind != "CallExpr" {
+			return true
+		}
+		args := x.Args()
+		switch {
+		case x.Callee() == "liveon" && len(args) >= 1:
+			liveonSets = append(liveonSets, args[0].Src())
+			if firstLiveon == nil {
+				firstLiveon = x
+			}
+		case x.Callee() == "limit2" && len(args) >= 1: // (limit() cuts the back-edge sets, which come from b->out)
+			limited[args[0].Src()] = true
+		case helpers[x.Callee()]:
+			for _, a := range args {
+				merged[a.Src()] = true
+			}
+		}
+		return true
+	})
+	if !r.Anchor(rule, len(liveonSets) >= 2 && firstLiveon != nil, "spill(): liveon calls for the two successors") {
+		return
+	}
+	bad := ""
+	for _, s := range liveonSets {
+		if limited[s] {
+			bad = "liveon(" + s + ", …) fills the set that limit2 then cuts down: the successors' register sets are united as they are"
+		} else if !merged[s] {
+			bad = "the set " + s + " obtained from liveon() is not passed through a loop-depth aware helper"
+		}
+	}
+	r.Check(bad == "" && len(helpers) > 0, rule, "qbe/spill.c:spill", "successor register sets are merged with regard to loop depth", c.cpos(cf, firstLiveon),
+		bad+": a value that is live through a loop and spilled at its back edge stays in a register at the loop header — `let a: []i64 = [3]; let b: []i64 = [7]; for p in a { io::Println(p); } io::Println(len(b));` stops the compiler with `rega.c:597: Assertion x != -1 failed` (SIGABRT, no diagnostic)")
+}
